@@ -14,4 +14,4 @@ Extraction "model.ml"
   api_str_trim_suffix api_opt_has api_take_while_ne
   api_mf_run api_c_run api_wh_trace api_expand api_abs
   api_xdg_home api_xdg_dirs api_getrids api_vfs_config_dir api_sym_mode api_revoking_mode
-  api_mfs_init api_mfs_step api_mfs_entries api_mfs_data api_files_list api_render_rpath.
+  api_mfs_init api_mfs_step api_mfs_entries api_mfs_data api_files_list api_render_rpath api_wf_b api_mfs_of_lists api_mk_entry api_set_of_list api_rpath_of_string.
